@@ -401,3 +401,15 @@ end Agd.Buffers
 #print axioms Agd.Tie.TrC06.upstream_decodes_read_bytes
 #print axioms Agd.Tie.TrC06.tcp_buffer_sized_by_prefix
 #print axioms Agd.Tie.TrC06.exchange_packs_before_every_write
+#print axioms Agd.Tie.TrC06.packReq_tcp
+#print axioms Agd.Tie.TrC06.packReq_udp
+#print axioms Agd.Tie.TrC06.toI_overwrite
+#print axioms Agd.Tie.TrC06.overwrite_twice
+#print axioms Agd.Tie.TrC06.model_buffer
+#print axioms Agd.Tie.TrC06.packReq_tr_some
+#print axioms Agd.Tie.TrC06.packReq_tr_none
+#print axioms Agd.Tie.TrC06.packReq_panics_iff
+#print axioms Agd.Tie.TrC06.packReq_never_panics
+#print axioms Agd.Tie.TrC06.packReq_success
+#print axioms Agd.Tie.TrC06.packReq_failure
+#print axioms Agd.Tie.TrC06.toI_length
